@@ -221,8 +221,9 @@ func (f *Frame) staticCall(st *execState, fn *ssa.Function, args, free []Val, rt
 			g.idPrefix = fnName(f.fn)
 		}
 		g.counters = f.counters
-		res, mem, flags, _ := g.run(args, free, st.mem, st.reach, st.st)
+		res, mem, gh, flags, _ := g.run(args, free, st.mem, st.gh, st.reach, st.st)
 		st.mem = mem
+		st.gh = gh
 		st.st = flags
 		f.allocs = append(f.allocs, g.allocs...)
 		return res
@@ -311,6 +312,7 @@ func (f *Frame) havocCall(st *execState, name string, args []Val, rtype types.Ty
 	if writes {
 		f.frameCheckAll(st, pos, "call to unmodelled "+name)
 		st.mem = e.mc.HavocAll("mem.after." + sanitize(name))
+		st.gh = e.freshGhost(".after." + sanitize(name))
 	}
 	return f.freshResult(st, name, rtype, hint)
 }
@@ -337,7 +339,7 @@ func (e *Engine) contractFor(name string) *Contract {
 // calleeScope binds the callee's parameter and result names.
 func (f *Frame) calleeScope(st *execState, fn *ssa.Function, con *Contract, sig *types.Signature, args []Val, results Val, pre *Mem, recvFirst bool) *Scope {
 	e := f.e
-	sc := &Scope{e: e, vars: map[string]SV{}, mem: st.mem, oldMem: pre, pkg: f.fn.Pkg.Pkg}
+	sc := &Scope{e: e, vars: map[string]SV{}, mem: st.mem, oldMem: pre, gh: st.gh, oldGh: f.preGhost, pkg: f.fn.Pkg.Pkg}
 	if fn != nil && fn.Pkg != nil {
 		sc.pkg = fn.Pkg.Pkg
 	}
@@ -414,6 +416,7 @@ func (f *Frame) modularCall(st *execState, fn *ssa.Function, name string, con *C
 	}
 	e.usedContracts[name] = true
 	pre := st.mem
+	f.preGhost = st.gh
 	// 1. preconditions
 	sc := f.calleeScope(st, fn, con, sig, args, nil, pre, recvFirst)
 	for _, r := range con.Requires {
@@ -426,15 +429,23 @@ func (f *Frame) modularCall(st *execState, fn *ssa.Function, name string, con *C
 	if con.HasMod {
 		for _, m := range con.Modifies {
 			sc.goal = false
-			lo, n := e.evalRegion(sc, m.Expr, m.Text)
-			f.frameCheck(st, lo, n, pos, "callee "+name+" modifies "+m.Text)
-			st.mem = e.mc.HavocRange(st.mem, lo, n, "mem."+sanitize(shortCallee(name)))
+			d := e.evalDesignator(sc, m.Expr, m.Text)
+			f.frameCheckD(st, d, pos, "callee "+name+" modifies "+m.Text)
+			switch {
+			case d.ghost == "":
+				st.mem = e.mc.HavocRange(st.mem, d.lo, d.n, "mem."+sanitize(shortCallee(name)))
+			case d.lo == nil:
+				st.gh = st.gh.withScalar(d.ghost, e.tb.Fresh("ghost."+d.ghost+"."+sanitize(shortCallee(name)), BV(64)))
+			default:
+				st.gh = st.gh.withMem(d.ghost, e.mc.HavocRange(st.gh.mm[d.ghost], d.lo, d.n, "ghost."+d.ghost+"."+sanitize(shortCallee(name))))
+			}
 		}
 	} else if fn != nil && e.bodyIsPure(fn, 0) {
 		// no writes
 	} else {
 		f.frameCheckAll(st, pos, "call to "+name+" (no modifies clause)")
 		st.mem = e.mc.HavocAll("mem.after." + sanitize(shortCallee(name)))
+		st.gh = e.freshGhost(".after." + sanitize(shortCallee(name)))
 	}
 	st.st.cut = true
 	// 3. results + postconditions. A clause of the form "r0 == E" on a
@@ -507,6 +518,18 @@ func (f *Frame) modularCall(st *execState, fn *ssa.Function, name string, con *C
 			sc1 = f.calleeScope(st, fn, con, sig, args, res, pre, recvFirst)
 		}
 	}
+	// "sets" clauses: ghost scalars after the call are ite(when, value, fresh)
+	for _, sc2 := range con.Sets {
+		scs := f.calleeScope(st, fn, con, sig, args, res, pre, recvFirst)
+		scs.goal = false
+		scs.what = sc2.Val.Text
+		v := scs.toInt(scs.eval(sc2.Val.Expr), 64, true)
+		if sc2.When != nil {
+			w := e.evalBool(scs, sc2.When.Expr, sc2.When.Text)
+			v = tb.Ite(w, v, st.gh.sc[sc2.Ghost])
+		}
+		st.gh = st.gh.withScalar(sc2.Ghost, v)
+	}
 	sc = f.calleeScope(st, fn, con, sig, args, res, pre, recvFirst)
 	for _, h := range con.Small {
 		if v, ok := sc.vars[h.Result]; ok && v.k == kInt && !v.t.IsConst() {
@@ -562,6 +585,7 @@ func (f *Frame) resultScope(st *execState, vals []Val) *Scope {
 // return sites (each evaluated in its own, path-simplified state).
 func (f *Frame) checkEnsuresPaths(flags pathFlags) {
 	e := f.e
+	f.curBlock = nil
 	if f.con == nil {
 		return
 	}
@@ -574,7 +598,7 @@ func (f *Frame) checkEnsuresPaths(flags pathFlags) {
 		var parts []oblPart
 		var conds, goals []*Term
 		for _, r := range f.rets {
-			st := &execState{reach: r.cond, env: map[ssa.Value]Val{}, mem: r.mem, st: r.st}
+			st := &execState{reach: r.cond, env: map[ssa.Value]Val{}, mem: r.mem, gh: r.gh, st: r.st}
 			sc := f.resultScope(st, r.vals)
 			sc.goal = true
 			g := e.evalBool(sc, en.Expr, en.Text)
@@ -642,6 +666,39 @@ func (f *Frame) frameCheck(st *execState, addr, size *Term, pos token.Pos, what 
 	}
 	alts = append(alts, tb.Eq(size, tb.ConstU(0, 64)))
 	f.oblige(st, "frame", "", st.reach, tb.Or(alts...), pos, "write stays inside the modifies clause: "+what)
+}
+
+// frameCheckD is frameCheck for a designator that may name ghost state.
+func (f *Frame) frameCheckD(st *execState, d designator, pos token.Pos, what string) {
+	e := f.e
+	if d.ghost == "" {
+		f.frameCheck(st, d.lo, d.n, pos, what)
+		return
+	}
+	top := e.top
+	if top == nil || top.con == nil || !top.con.HasMod || e.noSafety {
+		return
+	}
+	tb := e.tb
+	var alts []*Term
+	for _, a := range e.topGhostMods {
+		if a.ghost != d.ghost {
+			continue
+		}
+		if d.lo == nil {
+			alts = append(alts, tb.True())
+			continue
+		}
+		if a.lo == nil {
+			continue
+		}
+		off := tb.Sub(d.lo, a.lo)
+		alts = append(alts, tb.And(tb.Ule(d.n, a.n), tb.Ule(off, tb.Sub(a.n, d.n))))
+	}
+	if d.lo != nil {
+		alts = append(alts, tb.Eq(d.n, tb.ConstU(0, 64)))
+	}
+	f.oblige(st, "frame", "", st.reach, tb.Or(alts...), pos, "ghost write stays inside the modifies clause: "+what)
 }
 
 func (f *Frame) frameCheckAll(st *execState, pos token.Pos, what string) {
